@@ -19,7 +19,9 @@ columns the reader asked its origins for (``harness.relgen.lazy_columns``).
 
 Storage of a feed: alchemy -> the SQLite file <home>/<feed>.db, monolite -> the CSV file <home>/<feed>.csv; both hold
 the table under the schema's name, so equally named tables exist in every storage (unavailable storage: the table is
-dropped from the SQLite file / the CSV file is removed - the feed is still configured for it).  Feeds are read through the public
+dropped from the SQLite file / the CSV file is removed - the feed is still configured for it).  alchemy-shared -> ONE
+SQLite file <home>/shared.db for all such feeds (the same connection URL), the schema's table being provisioned from the
+physical table "<feed>_<table>" (the ``sources`` mapping of the feed): the storage of the feed is that table.  Feeds are read through the public
 producer factory (``Feed.producer(sources, features, **reader kwargs)``) and ``layout.Tabular.to_rows()``.
 """
 import csv
@@ -37,15 +39,22 @@ SQLT = {'int': 'INTEGER', 'float': 'DOUBLE', 'str': 'VARCHAR', 'bool': 'BOOLEAN'
 
 
 # ------------------------------------------------------------------------------------------------ storage
+def sql_storage(home, feed, kind):
+    """(SQLite file, physical table name of a schema table) of an alchemy / alchemy-shared feed."""
+    if kind == 'alchemy-shared':
+        return os.path.join(home, 'shared.db'), lambda table: f'{feed}_{table}'
+    return os.path.join(home, f'{feed}.db'), lambda table: table
+
+
 def write_storage(home, feed, kind, content):
-    if kind == 'alchemy':
-        path = os.path.join(home, f'{feed}.db')
-        con = sqlite3.connect(path)
+    if kind in ('alchemy', 'alchemy-shared'):
+        path, phys = sql_storage(home, feed, kind)
+        con = sqlite3.connect(path, timeout=60)
         for table, rows in content.items():
             cols = g.CATALOG[table]
-            con.execute(f'DROP TABLE IF EXISTS "{table}"')
-            con.execute(f'CREATE TABLE "{table}" (' + ', '.join(f'"{c}" {SQLT[k]}' for c, k in cols) + ')')
-            con.executemany(f'INSERT INTO "{table}" VALUES (' + ', '.join('?' for _ in cols) + ')', rows)
+            con.execute(f'DROP TABLE IF EXISTS "{phys(table)}"')
+            con.execute(f'CREATE TABLE "{phys(table)}" (' + ', '.join(f'"{c}" {SQLT[k]}' for c, k in cols) + ')')
+            con.executemany(f'INSERT INTO "{phys(table)}" VALUES (' + ', '.join('?' for _ in cols) + ')', rows)
         con.commit()
         con.close()
     else:
@@ -61,10 +70,11 @@ def write_storage(home, feed, kind, content):
 
 def drop_storage(home, feed, kind, tables):
     """The storage of the feed becomes unavailable: no such table / no such file."""
-    if kind == 'alchemy':
-        con = sqlite3.connect(os.path.join(home, f'{feed}.db'))
+    if kind in ('alchemy', 'alchemy-shared'):
+        path, phys = sql_storage(home, feed, kind)
+        con = sqlite3.connect(path, timeout=60)
         for table in tables:
-            con.execute(f'DROP TABLE IF EXISTS "{table}"')
+            con.execute(f'DROP TABLE IF EXISTS "{phys(table)}"')
         con.commit()
         con.close()
     else:
@@ -90,12 +100,11 @@ def child_main(home, feeds, stmts, rfd, wfd, stored):
     def reader_of(name):
         if name not in readers:
             tables = {t: g.build(node) for t, node in g.TABLES.items()}
-            if feeds[name] == 'alchemy':
+            if feeds[name] in ('alchemy', 'alchemy-shared'):
                 from forml.provider.feed import alchemy
-                feed = alchemy.Feed(sources={tab: t for t, tab in tables.items()},
-                                    connection=f'sqlite:///{os.path.join(home, name + ".db")}')
-                readers[name] = type(feed).producer(feed.sources, feed.features,
-                                                    connection=f'sqlite:///{os.path.join(home, name + ".db")}')
+                path, phys = sql_storage(home, name, feeds[name])
+                feed = alchemy.Feed(sources={tab: phys(t) for t, tab in tables.items()}, connection=f'sqlite:///{path}')
+                readers[name] = type(feed).producer(feed.sources, feed.features, connection=f'sqlite:///{path}')
             else:
                 from forml.provider.feed import monolite
                 # configured for every table its storage is meant to hold - whether the file exists right now or not
